@@ -5,7 +5,7 @@
 From Selene Require Export Lua.Syntax.
 From Coq Require Export ZArith.
 
-Inductive node := NExpr (e : expr) | NStmt (s : stmt) | NCall (c : fcall).
+Inductive node := NExpr (e : expr) | NStmt (s : stmt) | NCall (c : fcall) | NTable (fs : fields).
 
 Fixpoint nodes_expr (e : expr) : list node :=
   NExpr e ::
@@ -14,7 +14,7 @@ Fixpoint nodes_expr (e : expr) : list node :=
   | EParen e' => nodes_expr e'
   | EUnop _ e' => nodes_expr e'
   | EBinop _ l r => nodes_expr l ++ nodes_expr r
-  | ETable fs => nodes_fields fs
+  | ETable fs => NTable fs :: nodes_fields fs
   | EVar v => nodes_var v
   | ECall c => nodes_fcall c
   | _ => []
@@ -30,7 +30,7 @@ with nodes_suffixes (ss : suffixes) : list node :=
 with nodes_call (c : call) : list node :=
   match c with CAnon a => nodes_args a | CMethod _ a => nodes_args a end
 with nodes_args (a : args) : list node :=
-  match a with AParens es => nodes_exprs es | AString _ => [] | ATable fs => nodes_fields fs end
+  match a with AParens es => nodes_exprs es | AString _ => [] | ATable fs => NTable fs :: nodes_fields fs end
 with nodes_index (i : index) : list node :=
   match i with IBrackets e => nodes_expr e | IDot _ => [] end
 with nodes_fields (fs : fields) : list node :=
@@ -230,11 +230,104 @@ Definition overlap (a b : parameter_count) : parameter_count :=
   | PMinimum x, PMinimum y => PMinimum (Nat.min x y)
   end.
 
+(** ** mixed_table: a constructor with both keyed and positional fields (reported once per table) *)
+Fixpoint fields_list (fs : fields) : list field := match fs with FsNil => [] | FsCons f r => f :: fields_list r end.
+Definition is_nokey (f : field) : bool := match f with FNoKey _ => true | _ => false end.
+Definition is_mixed (n : node) : bool :=
+  match n with
+  | NTable fs => existsb is_nokey (fields_list fs) && existsb (fun f => negb (is_nokey f)) (fields_list fs)
+  | _ => false
+  end.
+
+(** ** duplicate_keys *)
+Inductive keykind := KString | KNumber.
+Definition key := (keykind * string)%type.
+Definition key_eqb (a b : key) : bool :=
+  match fst a, fst b with KString, KString | KNumber, KNumber => str_eqb (snd a) (snd b) | _, _ => false end.
+
+Fixpoint count_eqs' (s : string) : nat := match s with String "="%char r => S (count_eqs' r) | _ => O end.
+(** the tokenizer's `literal`: the text between the quotes / long brackets *)
+Definition str_content (raw : string) : string :=
+  match raw with
+  | String "["%char rest => let lvl := count_eqs' rest in substring (lvl + 2) (String.length raw - 2 * (lvl + 2)) raw
+  | _ => substring 1 (String.length raw - 2) raw
+  end.
+
+Definition expression_to_key (e : expr) : option key :=
+  match e with
+  | EString raw => Some (KString, str_content raw)
+  | ENumber raw => Some (KNumber, raw)
+  | _ => None
+  end.
+
+Fixpoint nat_to_string_aux (fuel n : nat) (acc : string) : string :=
+  match fuel with
+  | O => acc
+  | S f => let d := ascii_of_nat (48 + Nat.modulo n 10) in
+           let acc' := String d acc in
+           match Nat.div n 10 with O => acc' | q => nat_to_string_aux f q acc' end
+  end.
+Definition nat_to_string (n : nat) : string := nat_to_string_aux (S n) n "".
+
+(** the number of duplicates among the fields, with the declared keys so far and the positional index *)
+Fixpoint dup_count (fs : list field) (declared : list key) (index : nat) : nat :=
+  match fs with
+  | [] => O
+  | f :: r =>
+      let '(k, index') :=
+        match f with
+        | FNameKey name _ => (Some (KString, t_name name), index)
+        | FExprKey ke _ => (expression_to_key ke, index)
+        | FNoKey _ => (Some (KNumber, nat_to_string (S index)), S index)
+        end in
+      match k with
+      | Some k' => if existsb (key_eqb k') declared then S (dup_count r declared index')
+                   else dup_count r (k' :: declared) index'
+      | None => dup_count r declared index'
+      end
+  end.
+
+Definition dup_keys_count (n : node) : nat :=
+  match n with NTable fs => dup_count (fields_list fs) [] 0 | _ => O end.
+
+(** ** parenthese_conditions *)
+Definition is_paren (e : expr) : bool := match e with EParen _ => true | _ => false end.
+Fixpoint paren_elseifs (e : elseifs) : nat :=
+  match e with EiNil => O | EiCons c _ r => (if is_paren c then 1 else 0) + paren_elseifs r end.
+Definition paren_cond_count (n : node) : nat :=
+  match n with
+  | NStmt (SIf c _ eis _) => (if is_paren c then 1 else 0) + paren_elseifs eis
+  | NStmt (SRepeat _ c) | NStmt (SWhile c _) => if is_paren c then 1 else 0
+  | _ => O
+  end.
+
+(** ** constant_table_comparison *)
+Definition is_table (e : expr) : bool := match e with ETable _ => true | _ => false end.
+Definition is_table_comparison (n : node) : bool :=
+  match n with
+  | NExpr (EBinop o l r) =>
+      (str_eqb o "==" || str_eqb o "~=" || str_eqb o ">" || str_eqb o "<" || str_eqb o ">=" || str_eqb o "<=")
+      && (is_table l || is_table r)
+  | _ => false
+  end.
+
+(** ** type_check_inside_call (outside Roblox: only `type`) *)
+Definition is_type_check_inside (n : node) : bool :=
+  match n with
+  | NCall (FCall (PName name) (SsCons (SfxCall (CAnon (AParens (EsCons (EBinop o _ (EString _)) _)))) _) _) =>
+      str_eqb (t_name name) "type" && str_eqb o "=="
+  | _ => false
+  end.
+
 (** the per-lint numbers of diagnostics of a chunk *)
-Record counts := { n_div0 : nat; n_nan : nat; n_revloop : nat; n_empty_if : nat; n_empty_loop : nat; n_unbalanced : nat }.
+Record counts := { n_div0 : nat; n_nan : nat; n_revloop : nat; n_empty_if : nat; n_empty_loop : nat; n_unbalanced : nat;
+  n_mixed : nat; n_dupkeys : nat; n_paren : nat; n_tablecmp : nat; n_typecheck : nat }.
 
 Definition lint_counts (chunk : block) : counts :=
   let ns := nodes_block chunk in
   {| n_div0 := count is_div0 ns; n_nan := count is_compare_nan ns; n_revloop := count is_reverse_loop ns;
      n_empty_if := fold_right (fun n a => (empty_if_count n + a)%nat) O ns; n_empty_loop := count is_empty_loop ns;
-     n_unbalanced := count is_unbalanced ns |}.
+     n_unbalanced := count is_unbalanced ns;
+     n_mixed := count is_mixed ns; n_dupkeys := fold_right (fun n a => (dup_keys_count n + a)%nat) O ns;
+     n_paren := fold_right (fun n a => (paren_cond_count n + a)%nat) O ns;
+     n_tablecmp := count is_table_comparison ns; n_typecheck := count is_type_check_inside ns |}.
